@@ -37,7 +37,10 @@ def parse_key(k):
     m = KEY_RE.match(k)
     if not m or m.group(1) not in ELEMENT_SET:
         return None
-    ch = int(m.group(3)) if m.group(3) else 0
+    try:
+        ch = int(m.group(3)) if m.group(3) else 0
+    except ValueError:          # more digits than int() accepts: not a charge anybody can use
+        return None
     return m.group(1), (ch if m.group(2) != "-" else -ch)
 
 
